@@ -8,10 +8,13 @@
      jsonlike v : None, booleans, integers, floats, strings and mapping keys WITHOUT the quote character,
                   lists and mappings nested to any depth;
      pok        : the parameter name is an identifier, its value is jsonlike, its dtype is not Path.
-   Missing from the proved part: strings containing a quote (refuted), Path parameters, parameter objects
-   (their text is a user-defined repr, or for AutoParameterObject the CPython repr of the arguments). *)
+   Missing from the proved part: strings containing a quote (refuted).  Path parameters and
+   AutoParameterObjects are rendered with CPython's repr, which escapes: their texts are proved uniquely
+   readable / injective on their own (last three theorems before C03_refuted), for ALL strings, but they are
+   not yet composed into the registry/key-text theorems (pok excludes them); objects with a user-defined
+   repr are outside any theorem. *)
 From Coq Require Import String Ascii List Bool Arith ZArith.
-From TC Require Import PyStr Value Dict Repr Param Key Chain Eval Sha256 ReprProofs MultiProofs ReadProofs InjProofs.
+From TC Require Import PyStr Value Dict Repr Param Key Chain Eval Sha256 ReprProofs MultiProofs ReadProofs InjProofs PyReprProofs.
 Import ListNotations.
 
 (* the text of a value can be read back in one way only: equal texts (followed by anything that cannot
@@ -78,6 +81,31 @@ Theorem C03_different_key_different_location : forall tc o1 o2,
   o_key o1 <> o_key o2 -> result_path tc o1 <> result_path tc o2.
 Proof. exact different_key_different_location. Qed.
 Print Assumptions C03_different_key_different_location.
+
+(* ---- parameter objects and Path parameters: CPython's repr, which escapes ---- *)
+(* repr of a string (the text of a Path parameter and of a string inside an object's arguments) is
+   self-delimiting and injective for ALL strings: quotes, backslashes, control characters included *)
+Theorem C03_python_string_repr_uniquely_readable : forall s1 s2 r1 r2,
+  py_repr_str s1 ++ r1 = py_repr_str s2 ++ r2 -> s1 = s2 /\ r1 = r2.
+Proof. exact py_repr_str_unique. Qed.
+Print Assumptions C03_python_string_repr_uniquely_readable.
+
+(* repr of a JSON-like value built from any strings (pyjson) is uniquely readable *)
+Theorem C03_python_repr_uniquely_readable : forall v1 v2 r1 r2,
+  pyjson v1 = true -> pyjson v2 = true -> follow_ok r1 -> follow_ok r2 ->
+  py_repr v1 ++ r1 = py_repr v2 ++ r2 -> v1 = v2 /\ r1 = r2.
+Proof. exact py_repr_unique_readable. Qed.
+Print Assumptions C03_python_repr_uniquely_readable.
+
+(* the text of an AutoParameterObject - ClassName(arg=repr(value), ...) over its persisted arguments, sorted
+   by name - determines the class name and the arguments: objects that differ in a persisted argument, at
+   any depth of the argument's value, have different texts *)
+Theorem C03_auto_object_text_injective_partial : forall c1 a1 c2 a2 r1 r2,
+  ident c1 -> ident c2 -> Forall agood a1 -> Forall agood a2 ->
+  py_repr (VAuto c1 a1) ++ r1 = py_repr (VAuto c2 a2) ++ r2 ->
+  c1 = c2 /\ isort dkey_leb a1 = isort dkey_leb a2 /\ r1 = r2.
+Proof. exact auto_text_injective. Qed.
+Print Assumptions C03_auto_object_text_injective_partial.
 
 (* the full statement fails: two unequal lists of strings with one text (K1) *)
 Theorem C03_refuted : exists v1 v2, norm v1 <> norm v2 /\ repr_inst v1 = repr_inst v2.
